@@ -13,6 +13,9 @@ ASSUMPTIONS = [
     "completeness is proved for rectangles at least 2*eps wide and high (FRAME's own eps is 1e-12 of the smallest dimension); "
     "degenerate cases are still compared model-vs-implementation but not judged by the oracle",
     "which of several valid trunks is selected is not compared (verified post-condition checker stog_post_ok instead)",
+    "translation tie of find_location / area_overlap (shared with C18, see harness/props/c18.py::translation_tie): a source "
+    "outside the translator's subset is recorded as 'translator: skipped (<reason>)', triples the correspondence budget and is "
+    "not a violation by itself; a translated definition no longer proved equal to the model is",
     "object histories (kind 'hist'): a pool of real Rectangle objects goes through a sequence of create_stog calls on lists "
     "that share objects, in-place and setter moves / resizes, roles written through the public location setter, new objects "
     "and read-only probes; after EVERY operation the value of EVERY object is read back through the public attributes and the "
@@ -542,8 +545,8 @@ def shrink(case):
 def run(ctx, out, replay=None):
     # second tie: find_location / area_overlap re-translated from the current source and proved equal to the model
     from harness.props import c18
-    c18.translation_tie(ctx, out, pid="C06")
-    n = 4000 if ctx.quick() else 80000
+    mult = 3 if c18.translation_tie(ctx, out, pid="C06") == "skipped" else 1
+    n = (4000 if ctx.quick() else 80000) * mult
     out.rule = ("trunk with 1-5 branches on random sides (flush with corners, partial extent), near misses (gap, overhang, "
                 "overlap, perturbation around eps), repeated rectangles, random layouts, degenerate thin rectangles, random "
                 "order; non-trivial = at least two rectangles; distinct by canonical hash.  Object histories: a pool built from such "
@@ -559,7 +562,7 @@ def run(ctx, out, replay=None):
     cases += fr.load_corpus("C06")
     while len(cases) < n:
         cases.append(gen_case(ctx.rng))
-    nh = 1500 if ctx.quick() else 30000
+    nh = (1500 if ctx.quick() else 15000) * mult
     hrng = __import__("random").Random(f"C06-hist-{ctx.seed}")
     for _ in range(nh):
         cases.append(gen_hist(hrng))
